@@ -346,7 +346,15 @@ func (x *Exec) native(name string, fn *ssa.Function, args []Value) (Value, bool)
 		return SliceV{a: a, len: len(m), cap: len(m)}, true
 	case "(*regexp.Regexp).MatchString":
 		re := args[0].(Ptr).o.(*Cell).v.(Native).v.(*regexp.Regexp)
-		return Bool(re.MatchString(mustStr(args[1]))), true
+		if conc, ok := args[1].(*Str).concrete(); ok {
+			return Bool(re.MatchString(conc)), true
+		}
+		model := x.harnessPkg.Func("verifRegexFindIndex")
+		if model == nil {
+			panic(abortPath{"MatchString on symbolic text without a harness model", false})
+		}
+		loc := x.call(model, []Value{strOf(rePattern(re)), x.convert(args[1], types.Typ[types.String], types.NewSlice(types.Typ[types.Byte]))}, nil).(SliceV)
+		return Bool(loc.a != nil), true
 	case "(*regexp.Regexp).String":
 		re := args[0].(Ptr).o.(*Cell).v.(Native).v.(*regexp.Regexp)
 		return strOf(re.String()), true
